@@ -484,6 +484,13 @@ pub fn encode_with_fixed_block_size<T: Source>(
 
     destruct_arc(parsink).finalize(|f: Frame| stream.add_frame(f));
 
+    // `add_frame` lowered the minimum block size if the last block was short, but
+    // STREAMINFO's minimum excludes the last block (and must be at least 16).
+    stream
+        .stream_info_mut()
+        .set_block_sizes(block_size, block_size)
+        .unwrap();
+
     stream
         .stream_info_mut()
         .set_total_samples(src_len_hint.unwrap_or_else(|| context.total_samples()));
